@@ -36,6 +36,30 @@ type Statement[G algebra.PrimeGroupElement[G, S], S algebra.PrimeFieldElement[S]
 	Xs  []G `cbor:"xs"`
 }
 
+type statementDTO[G algebra.PrimeGroupElement[G, S], S algebra.PrimeFieldElement[S]] struct {
+	Gen G   `cbor:"gen"`
+	Xs  []G `cbor:"xs"`
+}
+
+// UnmarshalCBOR deserialises and validates a statement.
+func (x *Statement[G, S]) UnmarshalCBOR(data []byte) error {
+	dto, err := serde.UnmarshalCBOR[*statementDTO[G, S]](data)
+	if err != nil {
+		return errs.Wrap(err).WithMessage("cannot unmarshal statement")
+	}
+	if dto == nil || utils.IsNil(dto.Gen) {
+		return ErrInvalidArgument.WithMessage("statement generator is nil")
+	}
+	for _, xi := range dto.Xs {
+		if utils.IsNil(xi) {
+			return ErrInvalidArgument.WithMessage("statement group element is nil")
+		}
+	}
+	x.Gen = dto.Gen
+	x.Xs = dto.Xs
+	return nil
+}
+
 // NewStatement creates a new statement from a generator and public group elements.
 func NewStatement[G algebra.PrimeGroupElement[G, S], S algebra.PrimeFieldElement[S]](g G, xs ...G) *Statement[G, S] {
 	return &Statement[G, S]{
@@ -66,6 +90,28 @@ func (x *Statement[G, S]) Bytes() []byte {
 // Witness contains the secret scalars w_i such that X_i = g^w_i.
 type Witness[S algebra.PrimeFieldElement[S]] struct {
 	Ws []S `cbor:"ws"`
+}
+
+type witnessDTO[S algebra.PrimeFieldElement[S]] struct {
+	Ws []S `cbor:"ws"`
+}
+
+// UnmarshalCBOR deserialises and validates a witness.
+func (w *Witness[S]) UnmarshalCBOR(data []byte) error {
+	dto, err := serde.UnmarshalCBOR[*witnessDTO[S]](data)
+	if err != nil {
+		return errs.Wrap(err).WithMessage("cannot unmarshal witness")
+	}
+	if dto == nil {
+		return ErrInvalidArgument.WithMessage("witness is nil")
+	}
+	for _, wi := range dto.Ws {
+		if utils.IsNil(wi) {
+			return ErrInvalidArgument.WithMessage("witness scalar is nil")
+		}
+	}
+	w.Ws = dto.Ws
+	return nil
 }
 
 // NewWitness creates a new witness from secret scalars.
@@ -126,6 +172,23 @@ func (a *Commitment[G, S]) Bytes() []byte {
 // State holds the prover's randomness during the protocol execution.
 type State[S algebra.PrimeFieldElement[S]] struct {
 	S S `cbor:"s"`
+}
+
+type stateDTO[S algebra.PrimeFieldElement[S]] struct {
+	S S `cbor:"s"`
+}
+
+// UnmarshalCBOR deserialises and validates prover state.
+func (s *State[S]) UnmarshalCBOR(data []byte) error {
+	dto, err := serde.UnmarshalCBOR[*stateDTO[S]](data)
+	if err != nil {
+		return errs.Wrap(err).WithMessage("cannot unmarshal state")
+	}
+	if dto == nil || utils.IsNil(dto.S) {
+		return ErrInvalidArgument.WithMessage("state scalar is nil")
+	}
+	s.S = dto.S
+	return nil
 }
 
 // Response is the prover's answer to the verifier's challenge.
